@@ -289,7 +289,7 @@ def vec_t(v, dt):
     return t
 
 
-def make_aggregator(name, p, dt):
+def make_aggregator(name, p, dt, pref_dt=None):
     if name == "Mean":
         return Mean()
     if name == "Sum":
@@ -299,10 +299,10 @@ def make_aggregator(name, p, dt):
     if name == "Random":
         return Random()
     if name == "UPGrad":
-        return UPGrad(pref_vector=vec_t(p.get("pref"), dt), norm_eps=float(p["norm_eps"]),
+        return UPGrad(pref_vector=vec_t(p.get("pref"), pref_dt or dt), norm_eps=float(p["norm_eps"]),
                       reg_eps=float(p["reg_eps"]))
     if name == "DualProj":
-        return DualProj(pref_vector=vec_t(p.get("pref"), dt), norm_eps=float(p["norm_eps"]),
+        return DualProj(pref_vector=vec_t(p.get("pref"), pref_dt or dt), norm_eps=float(p["norm_eps"]),
                         reg_eps=float(p["reg_eps"]))
     if name == "MGDA":
         return MGDA(epsilon=float(p["epsilon"]), max_iters=int(p["max_iters"]))
@@ -345,7 +345,14 @@ def get_instance(name, p, dt):
     if REUSE and key in _INSTANCES:
         return _INSTANCES[key]
     del _PARAM_TENSORS[:]
-    inst = make_aggregator(name, p, dt)
+    pref_dt = None
+    if name in ("UPGrad", "DualProj") and (p or {}).get("pref") is not None:
+        # UPGrad / DualProj accept a preference vector of the OTHER float dtype than the matrix (the QP runs in
+        # float64 either way): every third parameter set is built that way
+        import zlib
+        if zlib.crc32(key[1].encode()) % 3 == 0:
+            pref_dt = "f32" if dt == "f64" else "f64"
+    inst = make_aggregator(name, p, dt, pref_dt)
     entry = (inst, list(_PARAM_TENSORS))
     if REUSE:
         if len(_INSTANCES) > 20000:
@@ -368,11 +375,26 @@ def get_buffer(J, dt):
     return buf
 
 
+_CALLS = [0]
+
+
 def impl_call(name, p, J, dt, seed=None, weighting=False, tensor=None):
     """Returns ("ok", [floats]) or ("err", class name).  Never raises."""
     try:
         A, params = get_instance(name, p, dt)
         t = get_buffer(J, dt) if tensor is None else tensor
+        _CALLS[0] += 1
+        if tensor is None and REUSE and _CALLS[0] % 2 == 0 and len(J) and len(J[0]):
+            # PRIMING: every second call is preceded by a call of the same instance on the SAME tensor object
+            # holding different content (rows and columns reversed), then the buffer is refilled in place.
+            # Anything remembered across calls -- on the instance, the class or the module; keyed by tensor
+            # identity, id(), shape, dtype or "closeness" -- makes the real call answer for the wrong matrix.
+            try:
+                t.copy_(to_tensor([list(reversed(r)) for r in reversed(J)], dt))
+                (A.weighting(t) if weighting else A(t))
+            except Exception:  # noqa: BLE001
+                pass
+            t.copy_(to_tensor(J, dt))
         if seed is not None:
             torch.manual_seed(seed)
         out = A.weighting(t) if weighting else A(t)
